@@ -325,7 +325,9 @@ var netProtos = []netProto{
 		decode: func(in []byte) (any, error) { return network.VerifBytesNewLightResponseFromBytes(in) },
 		encode: encodeMsg, typ: reflect.TypeOf(lightRespWire)},
 	{name: "warp-sync-request",
-		build:  func(k *kernel.K, l string) []byte { return mustEnc(&messages.WarpProofRequest{Begin: hashOf(k, l+"begin")}) },
+		build: func(k *kernel.K, l string) []byte {
+			return mustEnc(&messages.WarpProofRequest{Begin: hashOf(k, l+"begin")})
+		},
 		decode: func(in []byte) (any, error) { return network.VerifBytesDecodeWarpSyncMessage(in, "", true) },
 		encode: encodeMsg, typ: reflect.TypeOf(messages.WarpProofRequest{})},
 	{name: "warp-sync-proof",
@@ -343,7 +345,8 @@ var netProtos = []netProto{
 			err := scale.Unmarshal(in, &p)
 			return &p, err
 		},
-		encode: func(m any) ([]byte, error) { return scale.Marshal(*(m.(*grandpa.WarpSyncProof))) }},
+		encode: func(m any) ([]byte, error) { return scale.Marshal(*(m.(*grandpa.WarpSyncProof))) },
+		typ:    reflect.TypeOf(grandpa.WarpSyncProof{})},
 	{name: "state-request", isPB: true,
 		build: func(k *kernel.K, l string) []byte { return mustEnc(stateRequestOf(k, l)) },
 		decode: func(in []byte) (any, error) {
